@@ -1351,8 +1351,25 @@ func vC14CaseMsg(tr *vC14Trace, r *rand.Rand, cheap []*vC14SigKey) {
 		if h0.Rrtype == dns.TypeCNAME || h0.Rrtype == dns.TypeDNAME || h0.Rrtype == dns.TypeRRSIG {
 			return // synthesis rules and RRSIG-typed records are other properties' business
 		}
-		msg.Answer = append(msg.Answer, vC14RRs(s.set)...)
-		switch r.Intn(9) {
+		// authority-section data (anything but NS) is validated exactly like answer data
+		section := &msg.Answer
+		if h0.Rrtype != dns.TypeNS && r.Intn(4) == 0 {
+			section = &msg.Ns
+		}
+		*section = append(*section, vC14RRs(s.set)...)
+		switch r.Intn(11) {
+		case 9: // the only signature sits under a name outside the zone: it is not this RRset's
+			out := dns.Copy(s.sig).(*dns.RRSIG)
+			out.Hdr.Name = "other.invalid."
+			*section = append(*section, out)
+			what, expect = "signature-owned-outside-zone", false
+			continue
+		case 10: // the only signature covers another type
+			other := dns.Copy(s.sig).(*dns.RRSIG)
+			other.TypeCovered++
+			*section = append(*section, other)
+			what, expect = "signature-covers-other-type", false
+			continue
 		case 0:
 			if i == len(scns)-1 || r.Intn(2) == 0 {
 				what, expect = "one-set-unsigned", false
@@ -1364,10 +1381,10 @@ func vC14CaseMsg(tr *vC14Trace, r *rand.Rand, cheap []*vC14SigKey) {
 			bad := dns.Copy(s.sig).(*dns.RRSIG)
 			bad.Signature = base64.StdEncoding.EncodeToString(raw)
 			if r.Intn(2) == 0 { // a bad sibling next to a good signature does not matter
-				msg.Answer = append(msg.Answer, bad)
+				*section = append(*section, bad)
 				what = "bad-sibling-signature"
 			} else {
-				msg.Answer = append(msg.Answer, bad)
+				*section = append(*section, bad)
 				what, expect = "only-a-bad-signature", false
 				continue
 			}
@@ -1376,7 +1393,7 @@ func vC14CaseMsg(tr *vC14Trace, r *rand.Rand, cheap []*vC14SigKey) {
 			s.resign()
 			what, expect = "expired", false
 		}
-		msg.Answer = append(msg.Answer, s.sig)
+		*section = append(*section, s.sig)
 	}
 	switch r.Intn(8) {
 	case 0: // a foreign record in the answer
@@ -1400,9 +1417,12 @@ func vC14CaseMsg(tr *vC14Trace, r *rand.Rand, cheap []*vC14SigKey) {
 	ref := true
 	for _, s := range scns {
 		good := false
-		for _, rr := range msg.Answer {
+		for _, rr := range append(append([]dns.RR{}, msg.Answer...), msg.Ns...) {
 			sg, isSig := rr.(*dns.RRSIG)
 			if !isSig || !strings.EqualFold(sg.Hdr.Name, s.set[0].rr.Header().Name) || sg.TypeCovered != s.set[0].rr.Header().Rrtype {
+				continue
+			}
+			if !dns.IsSubDomain(zone, sg.Hdr.Name) {
 				continue
 			}
 			if rok, _ := vC14RefVerify(k, sg, vC14RRs(s.set)); rok && sg.ValidityPeriod(time.Time{}) {
